@@ -362,6 +362,8 @@ def run(ctx):
     # what the kernel is told a selector is: addresses, prefix lengths, ports, masks, protocol and the address FAMILY of the selector
     # network itself (the tunnel endpoints may be of the other family), in the SA and in the policies (shared with C01 O8 / C14 L3 / C15 Y2)
     common.create_sa_orientation(ctx, 'R6')
+    # the policy the responder narrows against is the configured one: each connection's selectors are built from its own section
+    common.loaders_read_only(ctx, 'R2')
     from .c14 import check_policy_builder
     check_policy_builder(ctx, 'R6')
     cc = ctx.func('xfrm.Xfrm.create_child_sa')
